@@ -45,7 +45,7 @@ class Engine(EngineBase):
         return 60.0 if tier == "quick" else 900.0
 
     def rule(self):
-        return ("seeded scenario (1-5 jobs of assorted state point shapes, cache absent/complete/partial) x "
+        return ("seeded scenario (1-5 jobs of assorted state point shapes, some bare, cache absent/complete/partial) x "
                 "damage sets of <= 3 jobs drawn from {truncate at offset, replace byte at offset by class, "
                 "delete, replace by other valid JSON, swap two files, rename directory}; thorough enumerates "
                 "every single damage of the scenario, quick samples. evaluations = damaged workspaces checked. "
